@@ -207,7 +207,8 @@ def _hx_terms(se):
     Vr = [complex(float(cq.round_bits(Fraction(v.real), 40)), float(cq.round_bits(Fraction(v.imag), 40))) for v in V]
     term = "run_hx %s %s %s" % (cq.lst([Cq(v, 40) for v in V]), cq.lst(rows), cq.lst(brs))
     mm = ep.non_nan_meas_mask
-    return term, (hx, {k: np.array(v) for k, v in mm.items()}, len(sem.fb), f == t)
+    last_self = bool(len(sem.fb)) and int(sem.fb[-1]) == int(sem.tb[-1])   # (no branch at all: a one-bus net in the thorough tier)
+    return term, (hx, {k: np.array(v) for k, v in mm.items()}, len(sem.fb), last_self)
 
 
 def _cmp_hx(ctx, model, obs, case):
@@ -412,7 +413,12 @@ def _real_case(ctx, rng, k, hx_jobs, gain_jobs, jac_jobs=None):
         if bad:
             ctx.violation("spec", "; ".join(bad[:3]), case)
         est1 = net.res_bus_est[["vm_pu", "va_degree"]].values.copy()
-        if len(hx_jobs) < ctx.n(25, 200):
+        # the model-level h(x)/Jacobian comparison needs at least one branch in the estimation ppci
+        # (a net reduced to fused buses has none; it is still judged by the oracle above)
+        has_branch = len(getattr(se.solver.eppci, "branch", [])) > 0 if hasattr(se.solver, "eppci") else True
+        if not has_branch:
+            ctx.count("estimation_ppci_without_branch")
+        if has_branch and len(hx_jobs) < ctx.n(25, 200):
             hx_jobs.append((_hx_terms(se), case))
             if jac_jobs is not None:
                 jac_jobs.append((_jac_terms(se, random.Random(len(jac_jobs) * 7919 + int(ctx.seed))), case))
